@@ -521,7 +521,7 @@ def run(ctx):
         if v.tables and v.backend not in ('c99', 'go'):      # the c99/go back ends have no loadable tables (the option is silently accepted: C02 D33)
             dm, tg = dmap_info(mod)
             if dm is None: rep.broken('variant %s uses --tables-file but defines no yydmap' % v.name)
-            rep.require(len(tg) >= 5, 'variant %s: yydmap initialiser names only %d tables' % (v.name, len(tg)))
+            rep.require(len(tg) >= 2, 'variant %s: yydmap initialiser names only %d tables' % (v.name, len(tg)))      # -CF scanners have only yy_transition, yy_start_state_list (+ eol table)
             ntab += 1
             allow[dm] = 'table of (id, address) pairs consumed by the one-time loader'
             for t in tg:
